@@ -12,12 +12,12 @@ CHECKS = {
 }
 CHECKS["C01"] = ("exploration",
     "bounded-exhaustive enumeration of prediction matrices x affinity menu x every way of obtaining a GEMINI, vs textbook reference (LP for Wasserstein)",
-    "Every n-tuple of prediction rows from an interior-simplex menu (lattice, near one-hot, near uniform) for small (K,n), crossed with a menu of named kernels/metrics with parameters, callables and precomputed (PSD and indefinite) matrices, is scored through the 13 registry names, the 6 classes with both ovo flags, MI, and DiscriminativeModel.score on a stub model; each value is compared with the definition computed independently (explicit sums over atoms, transport LP). Complete inside the stated bound; a wrong constant, swapped OvA/OvO branch, dropped weight or mis-mapped name is caught on the first non-trivial matrix.",
+    "Every n-tuple of prediction rows from an interior-simplex menu (lattice, near one-hot, near uniform) for small (K,n), crossed with a menu of named kernels/metrics with parameters, callables and precomputed (PSD and indefinite) matrices, is scored through the 13 registry names, the 6 classes with both ovo flags, MI, and DiscriminativeModel.score on a stub model; each value is compared with the definition computed independently (explicit sums over atoms, transport LP). Complete inside the stated bound; a wrong constant, swapped OvA/OvO branch, dropped weight or mis-mapped name is caught on the first non-trivial matrix. Also: memory layouts of the arguments, integer-typed and 1e-10..1e8-magnitude matrices, and call histories on one GEMINI object (in-place edits of affinity / predictions / data between evaluations, long-lived objects reused across matrices and shapes) compared with the reference and with fresh objects.",
     "Trusts scikit-learn's pairwise functions as the meaning of kernel/metric names and scipy HiGHS for the reference LP (bracketed by primal/dual bounds); real-valued inputs outside the menus are not explored.",
     "5/C01")
 CHECKS["C02"] = ("exploration",
     "bounded-exhaustive enumeration of (GEMINI, ovo, affinity, shape, logit scale, logit table) with two-step finite-difference oracle on the real evaluate()",
-    "For every class/ovo flag, every shape n<=5(7) x K<=4(5), five logit scales from soft to saturated, the affinity menu, seed-generic logit tables and ALL tuples of perturbed interior-lattice rows (to sweep TV sign patterns and OT bases), the returned gradient is pushed through the softmax chain rule and compared with central differences of the returned score (steps h and h/8 must agree for the point to count as differentiable), and along every simplex tangent e_a-e_b; plus score equality with/without return_grad, gradient shape and exact zeros on clipped entries.",
+    "For every class/ovo flag, every shape n<=5(7) x K<=4(5), five logit scales from soft to saturated, the affinity menu, seed-generic logit tables and ALL tuples of perturbed interior-lattice rows (to sweep TV sign patterns and OT bases), the returned gradient is pushed through the softmax chain rule and compared with central differences of the returned score (steps h and h/8 must agree for the point to count as differentiable), and along every simplex tangent e_a-e_b; plus score equality with/without return_grad, gradient shape and exact zeros on clipped entries. Non-default clipping precisions (partly clipped columns) and re-asking the used object after all its evaluations are included.",
     "Finite differences at two step sizes decide differentiability; kink points and MMD points whose distance is below floating-point resolution only get the finiteness/shape/clip checks. Values are seed-generic, structure is complete inside the bound.",
     "5/C02")
 CHECKS["C13"] = ("exploration",
@@ -27,12 +27,12 @@ CHECKS["C13"] = ("exploration",
     "5/C13")
 CHECKS["C03"] = ("exploration",
     "bounded-exhaustive enumeration of training configurations with a history monitor on every optimiser step of the real fit (optimiser/batch seams) vs finite-difference reference of the regularised batch objective",
-    "Model family x GEMINI x solver x batch size x {plain, must-link/cannot-link decorated} x datasets are fitted for real; the wrapped BaseOptimizer.update_params sees, at EVERY step of EVERY epoch, the live weights and the direction handed over, which must equal the negative gradient of GEMINI(batch predictions) minus the documented penalty, block by block (reference: real GEMINI gradient chained with two-step central differences of the model's own forward pass, analytic penalty, C14 reference constraint term).",
+    "Model family x GEMINI x solver x batch size x {plain, must-link/cannot-link decorated} x datasets are fitted for real; the wrapped BaseOptimizer.update_params sees, at EVERY step of EVERY epoch, the live weights and the direction handed over, which must equal the negative gradient of GEMINI(batch predictions) minus the documented penalty, block by block (reference: real GEMINI gradient chained with two-step central differences of the model's own forward pass, analytic penalty, C14 reference constraint term). Sparse families are also trained through path(); one-feature and 3-cut Douglas variants, hub-shaped constraint lists and a monitored fit after an earlier fit are included.",
     "GEMINI gradient exactness is delegated to C02; tiny models; parameters on a ReLU kink are skipped and counted.",
     "5/C03")
 CHECKS["C10"] = ("model_checking",
     "stateless exploration of environment answers (all n! answers of RandomState.permutation, deviation-bounded) on real fits/paths with a batch/optimiser monitor",
-    "The only nondeterminism of batching (RandomState.permutation) is owned by the harness: every batched model x n<=7 x every batch size 1..n+2/None x affinity {none, computed, user-supplied with unique entries} x {plain, decorated} is fitted for real with default answers (bound 0), with EVERY permutation as the first epoch's answer for n<=4(5) (bound 1) and every pair of answers for two epochs for n<=3 (bound 2); on every epoch the yielded batches must partition the data, respect batch_size, carry exactly A[idx][:,idx], match the decoration's recorded indices, and the optimiser must be stepped max_iter*ceil(n/bs) times; path() validation sweeps must visit consecutive diagonal blocks.",
+    "The only nondeterminism of batching (RandomState.permutation) is owned by the harness: every batched model x n<=7 x every batch size 1..n+2/None x affinity {none, computed, user-supplied with unique entries} x {plain, decorated} is fitted for real with default answers (bound 0), with EVERY permutation as the first epoch's answer for n<=4(5) (bound 1) and every pair of answers for two epochs for n<=3 (bound 2); on every epoch the yielded batches must partition the data, respect batch_size, carry exactly A[idx][:,idx], match the decoration's recorded indices, and the optimiser must be stepped max_iter*ceil(n/bs) times; path() validation sweeps must visit consecutive diagonal blocks. Refits of the same (decorated) instance on other sizes, the decoration's indices at the moment the optimiser is stepped, and 'one permutation per epoch drawn from the estimator's generator' are checked too.",
     "Every explored trace is an execution of the implementation (no separate model); rows are identified by value (distinct rows).",
     "5/C10")
 CHECKS["C14"] = ("model_checking",
@@ -67,7 +67,7 @@ CHECKS["C06"] = ("exploration",
     "5/C06")
 CHECKS["C20"] = ("model_checking",
     "stateless exploration of the random source's answers (all label vectors, all final permutations scripted) on the real generators with a recording RandomState; reference = documented parameter tables and assembly",
-    "A recording/scripted RandomState owns the random source of draw_gmm, multivariate_student_t, gstm, celeux_one, celeux_two: ALL label vectors (K<=3/4, n<=4/5) and ALL n! final permutations (n<=5) are fed as answers; the requests made to the source must carry the documented parameters (sqrt(variance) for d=1, corner means, Celeux tables) and the output must be the documented assembly of the answers (row i is a fresh draw of component y[i], Student-t = loc+sqrt(df/u)z, joint shuffle, linear dependencies). Identical seeds, shapes, label ranges and the rejection menu are checked with the real source; a seeded 6-sigma moment check is a backstop and the arbiter when the request pattern is not recognised.",
+    "A recording/scripted RandomState owns the random source of draw_gmm, multivariate_student_t, gstm, celeux_one, celeux_two: ALL label vectors (K<=3/4, n<=4/5) and ALL n! final permutations (n<=5) are fed as answers; the requests made to the source must carry the documented parameters (sqrt(variance) for d=1, corner means, Celeux tables) and the output must be the documented assembly of the answers (row i is a fresh draw of component y[i], Student-t = loc+sqrt(df/u)z, joint shuffle, linear dependencies). Identical seeds, shapes, label ranges and the rejection menu are checked with the real source; a seeded 6-sigma moment check is a backstop and the arbiter when the request pattern is not recognised. A distribution-free explorer (far-apart tight components x all label vectors incl. empty components) does not depend on how the random source is asked; all-integer parameters included.",
     "numpy's samplers are trusted; Celeux tables typed by hand from the documentation.",
     "5/C20")
 CHECKS["C15"] = ("exploration",
@@ -77,22 +77,22 @@ CHECKS["C15"] = ("exploration",
     "5/C15")
 CHECKS["C04"] = ("exploration",
     "deviation-bounded exhaustive enumeration of estimator configurations (all 18 estimators, every single-axis deviation, coupled/all axis pairs) x data shapes x input forms on the real fit, with an independent coherence oracle",
-    "For each of the 18 estimators and data shapes (3,1),(4,2),(6,3): the default configuration in five input forms, every configuration with one documented-valid parameter value deviating (13 GEMINI names, instances, None, solver, every batch size 1..n+1, every n_clusters 1..n, kernel/metric menus with parameters/callables/precomputed, ovo, reg, groups, alpha, M, dynamic, n_cuts, temperature, feature_mask, tree limits) and two deviations on coupled axes (all axis pairs in thorough) are fitted for real: no exception, labels_ shape/range, predict_proba rows are probability vectors, predict = argmax = labels_, score = reference GEMINI (oracles/gemini.py) of predict_proba on the given data, n_iter_/optimiser_ reflect max_iter/solver, Kauri labels in range with a tree and score = objective.",
+    "For each of the 18 estimators and data shapes (3,1),(4,2),(6,3): the default configuration in five input forms, every configuration with one documented-valid parameter value deviating (13 GEMINI names, instances, None, solver, every batch size 1..n+1, every n_clusters 1..n, kernel/metric menus with parameters/callables/precomputed, ovo, reg, groups, alpha, M, dynamic, n_cuts, temperature, feature_mask, tree limits) and two deviations on coupled axes (all axis pairs in thorough) are fitted for real: no exception, labels_ shape/range, predict_proba rows are probability vectors, predict = argmax = labels_, score = reference GEMINI (oracles/gemini.py) of predict_proba on the given data, n_iter_/optimiser_ reflect max_iter/solver, Kauri labels in range with a tree and score = objective. A history axis refits the same configuration on narrower / wider / shorter data (hyperparameters must be unchanged), and predict_proba / score must be identical on a second identical call.",
     "Bounded to n<=6, d<=3 and deviation bound 1-2 from a small default configuration.",
     "5/C04")
 CHECKS["C18"] = ("exploration",
     "bounded-exhaustive enumeration of all row subsets and permutations of small arrays on fitted inductive estimators",
-    "For each of the 15 inductive estimators and a few fitted states, predict/predict_proba on ALL 31 non-empty subsets and ALL 120 permutations of 5 new points and of the 5 training points must return the corresponding rows of the full-array prediction (labels exact, probabilities 1e-12), independent of memory layout, and predict(train)==labels_ (KernelRIM evaluates its kernel against the stored training points).",
+    "For each of the 15 inductive estimators and a few fitted states, predict/predict_proba on ALL 31 non-empty subsets and ALL 120 permutations of 5 new points and of the 5 training points must return the corresponding rows of the full-array prediction (labels exact, probabilities 1e-12), independent of memory layout, and predict(train)==labels_ (KernelRIM evaluates its kernel against the stored training points). Integer / float32 typed queries, an array longer than the training set, time-stamp-like features and a refit of an object that had already predicted are included.",
     "5 rows per array; BLAS shape effects tolerated at 1e-12.",
     "5/C18")
 CHECKS["C11"] = ("exploration",
     "bounded-exhaustive enumeration of kernel/metric/ovo/gemini hyperparameter values on all estimators exposing them, with independently constructed expectations and a named-vs-precomputed differential oracle on real fits/paths",
-    "Every estimator exposing kernel/metric/ovo/gemini/base_kernel x every accepted value (names with and without non-default parameter dictionaries, callables, precomputed, both ovo flags, gemini None / 13 names / instances): get_gemini().compute_affinity must equal scikit-learn called directly (bitwise), the callable's output or the user's matrix, and evaluate on probe predictions must equal the textbook reference of the described (distance, OvA/OvO). Missing precomputed matrices must raise. Differential: fit / path / score with a named kernel or metric and with the same matrix given as 'precomputed' must give bitwise-equal fitted attributes, path histories, best weights and scores (gradient models with and without mini-batches, Kauri).",
+    "Every estimator exposing kernel/metric/ovo/gemini/base_kernel x every accepted value (names with and without non-default parameter dictionaries, callables, precomputed, both ovo flags, gemini None / 13 names / instances): get_gemini().compute_affinity must equal scikit-learn called directly (bitwise), the callable's output or the user's matrix, and evaluate on probe predictions must equal the textbook reference of the described (distance, OvA/OvO). Missing precomputed matrices must raise. Differential: fit / path / score with a named kernel or metric and with the same matrix given as 'precomputed' must give bitwise-equal fitted attributes, path histories, best weights and scores (gradient models with and without mini-batches, Kauri). A 'reconfigured' explorer uses an estimator, changes kernel/metric/ovo/gemini with set_params and requires bitwise agreement with a fresh estimator; parameter dictionaries with zero values / without gamma, a second data set of another width and 'user dictionary untouched' are included.",
     "scikit-learn's pairwise functions are the meaning of names; small data (n=5..8).",
     "5/C11")
 CHECKS["C12"] = ("model_checking",
     "explicit-state BFS over histories of public calls on real estimators with a differential oracle (history;fit vs fresh fit), plus a cross-process order differential for process-global state",
-    "For each of the 18 estimators (1-3 configurations) all histories up to depth 2 (quick) / 4 (thorough) over the alphabet fit(X1), fit(X2 other shape), fit(X3 same shape), fit_predict, predict, predict_proba, score, set_params(several), path (sparse), clone are replayed on fresh real objects; states are deduplicated by (class, hyperparameters, digest of all fitted attributes incl. optimiser state). In every state: history;fit(X1) equals a fresh estimator's fit(X1) on every attribute bitwise, same for clone and for path, caller arrays are bit-identical and writeable, hyperparameters change only through set_params, get_params/set_params/clone round-trip. A second explorer repeats fits/paths of same-shaped data sets in a different order in a fresh interpreter to expose module-level state.",
+    "For each of the 18 estimators (1-3 configurations) all histories up to depth 2 (quick) / 4 (thorough) over the alphabet fit(X1), fit(X2 other shape), fit(X3 same shape), fit_predict, predict, predict_proba, score, set_params(several), path (sparse), clone are replayed on fresh real objects; states are deduplicated by (class, hyperparameters, digest of all fitted attributes incl. optimiser state). In every state: history;fit(X1) equals a fresh estimator's fit(X1) on every attribute bitwise, same for clone and for path, caller arrays are bit-identical and writeable, hyperparameters change only through set_params, get_params/set_params/clone round-trip. A second explorer repeats fits/paths of same-shaped data sets in a different order in a fresh interpreter to expose module-level state. Also: pure-query oracle (histories with predict/predict_proba/score answer later queries like the same history without them), decorated configurations, partial groups, alpha=0, calls without the precomputed matrix.",
     "Depth-bounded; merged states have the same futures because public methods only read hyperparameters and fitted attributes.",
     "5/C12")
 CHECKS["C16"] = ("exploration",
